@@ -1098,11 +1098,10 @@ func (c *ExecCtx) runLoop(st *State, node ast.Node, label string, ls *LoopSpec, 
 		if ls != nil {
 			for _, cl := range ls.Inv {
 				var t *Term
-				if evalInvMode {
-					t = c.specBoolAssume(s, oldS, cl, pos, binds)
-				} else {
-					t = c.specBool(s, oldS, cl, pos, binds)
-				}
+				ienv := c.newEnv(binds, pos)
+				ienv.midBody = true
+				ienv.assuming = evalInvMode
+				t = ienv.evalBool(s, oldS, cl.Expr, cl.Where)
 				out = append(out, struct {
 					t   *Term
 					src string
@@ -1383,7 +1382,19 @@ func (c *ExecCtx) execRange(st *State, x *ast.RangeStmt, label string) []*State 
 		binds := map[string]Val{"ʃvisited": {Sym(vk, "GHOSTKEY"), gm}}
 		// the map as it was when the loop started (Go: entries added during
 		// iteration may or may not be visited; entries removed are not)
-		head := func(s *State) *Term { return u.fresh("more", SBool) }
+		// When the body cannot add entries to any map (no calls other than
+		// builtins/conversions, no map stores), the loop ends only after every
+		// entry present has been visited.
+		quiet := c.mapRangeBodyQuiet(x.Body)
+		head := func(s *State) *Term {
+			more := u.fresh("more", SBool)
+			if quiet {
+				kq := Sym("k!v", ks)
+				Hq := u.heapGet(s, hn, ArraySort(SInt, ArraySort(ks, SBool)))
+				s.assumeT(Imp(Not(more), Forall([]*Term{kq}, Imp(And(Ne(m.T, IntLit(0)), Select(Select(Hq, m.T), kq)), Select(s.ghost[vk], kq)), []*Term{Select(s.ghost[vk], kq)})))
+			}
+			return more
+		}
 		body2 := func(s *State) []*State {
 			k := u.fresh("mk", ks)
 			H := u.heapGet(s, hn, ArraySort(SInt, ArraySort(ks, SBool)))
@@ -1442,6 +1453,45 @@ func (c *ExecCtx) execRange(st *State, x *ast.RangeStmt, label string) []*State 
 	}
 	u.unsupportedf(x.Pos(), "range over %s", c.typeOf(x.X))
 	return live(st)
+}
+
+// mapRangeBodyQuiet: the loop body contains no statement that could add an
+// entry to a map: no calls except builtins (other than delete/clear) and
+// conversions, no assignment through a map index, no go/defer/func literal.
+func (c *ExecCtx) mapRangeBodyQuiet(body *ast.BlockStmt) bool {
+	ok := true
+	ast.Inspect(body, func(n ast.Node) bool {
+		switch x := n.(type) {
+		case *ast.FuncLit, *ast.GoStmt, *ast.DeferStmt:
+			ok = false
+		case *ast.CallExpr:
+			if tv, has := c.info.Types[x.Fun]; has && tv.IsType() {
+				return true
+			}
+			if id, isID := ast.Unparen(x.Fun).(*ast.Ident); isID {
+				if _, isB := c.info.Uses[id].(*types.Builtin); isB && id.Name != "delete" && id.Name != "clear" {
+					return true
+				}
+			}
+			ok = false
+		case *ast.AssignStmt:
+			for _, l := range x.Lhs {
+				if ie, isIdx := ast.Unparen(l).(*ast.IndexExpr); isIdx {
+					if _, isMap := unalias(c.typeOf(ie.X)).Underlying().(*types.Map); isMap {
+						ok = false
+					}
+				}
+			}
+		case *ast.IncDecStmt:
+			if ie, isIdx := ast.Unparen(x.X).(*ast.IndexExpr); isIdx {
+				if _, isMap := unalias(c.typeOf(ie.X)).Underlying().(*types.Map); isMap {
+					ok = false
+				}
+			}
+		}
+		return ok
+	})
+	return ok
 }
 
 // bindLoopNames exposes $key (current index) and $len to invariants.
